@@ -23,7 +23,7 @@ func init() {
 		},
 		Batches:  func(t string) int { return 16 },
 		Parallel: 8,
-		Rule: "one case = one run of n real consensus engines (real block manager, service manager, file WALs) whose whole traffic is routed by the harness under a PRNG fault plan (drop/delay/duplicate/partition), a Byzantine strategy for f validators (vote equivocation, proposal equivocation, scripted lock attack, amnesia) and crash/restart of correct validators with torn WALs. Monitor: every Finalize by a correct validator must equal every other at that height and must be preceded on the wire by precommits for exactly that block from >2n/3 distinct validators in one round (online + offline re-check). Non-trivial = run in which >=2 heights were finalized by >=2 correct validators and (a round >0 occurred, or a Byzantine equivocation was put on the wire, or a validator crashed and restarted); distinct by (class, max round, crashes, equivocations, vote-arrival order hash).",
+		Rule: "one case = one run of n real consensus engines (real block manager, service manager, file WALs) whose whole traffic is routed by the harness under a PRNG fault plan (drop/delay/duplicate/partition), a Byzantine strategy for f validators (vote equivocation, proposal equivocation, scripted lock attack on the prevote-locked-block rule, scripted stale-polka attack on the unlock-only-on-later-polka rule) and crash/restart of correct validators with torn WALs. Monitor: every Finalize by a correct validator must equal every other at that height and must be preceded on the wire by precommits for exactly that block from >2n/3 distinct validators in one round (online + offline re-check). Non-trivial = run in which >=2 heights were finalized by >=2 correct validators and (a round >0 occurred, or a Byzantine equivocation was put on the wire, or a validator crashed and restarted); distinct by (class, max round, crashes, equivocations, vote-arrival order hash).",
 		MinNonTrivial: func(t string) int {
 			if t == ev.Thorough {
 				return 200
@@ -38,7 +38,7 @@ func init() {
 }
 
 // Classes of scenarios.
-var classes = []string{"baseline", "faults", "partition", "vote-equiv", "prop-equiv", "lock-attack", "crash", "faults+vote-equiv"}
+var classes = []string{"baseline", "faults", "partition", "vote-equiv", "prop-equiv", "lock-attack", "crash", "faults+vote-equiv", "stale-polka"}
 
 // MakePlan builds the plan of case i.
 func MakePlan(i int, r *rand.Rand, thorough bool) (csnet.Options, string) {
@@ -91,6 +91,13 @@ func MakePlan(i int, r *rand.Rand, thorough bool) (csnet.Options, string) {
 		plan.AttackHeight = int64(2 + r.Intn(2))
 		opt.Byz = []int{csnet.LockAttackByz(plan.AttackHeight)}
 		opt.TimeoutPropose = 3 * time.Second
+	case "stale-polka":
+		n = 4
+		opt.N = 4
+		plan.Strategy = "stale-polka"
+		plan.AttackHeight = int64(2 + r.Intn(2))
+		opt.Byz = []int{csnet.StalePolkaByz(plan.AttackHeight)}
+		opt.TimeoutPropose = 3 * time.Second
 	case "crash":
 		faults(r.Intn(2))
 		nc := 1 + r.Intn(2)
@@ -113,6 +120,7 @@ func RandCrash(r *rand.Rand, victim int, h int64) csnet.CrashSpec {
 	if r.Intn(2) == 0 {
 		cp.TearBytes = []int{0, 1, 4, 7, 8, 9, 20, 1 << 20}[r.Intn(8)]
 	}
+	cp.ZeroFill = r.Intn(3) == 0
 	return csnet.CrashSpec{Victim: victim, AtHeight: h, Point: cp}
 }
 
@@ -146,6 +154,7 @@ func Report(c *ev.Ctx, prop, class string, opt csnet.Options, res *csnet.Result,
 	c.Count("restarts", res.Restarts)
 	c.Count("restart_failed", res.RestartFailed)
 	c.Count("durable_before_send_checks", res.DurableChecks)
+	c.Count("remembered_after_recovery_checks", res.RememberChecks)
 	c.Count("sent_after_restart_same_height", res.SentAfterRestartSameHeight)
 	c.Count("packets_sent", int(res.Router.Sent))
 	c.Count("packets_dropped", int(res.Router.Dropped))
@@ -160,10 +169,10 @@ func Report(c *ev.Ctx, prop, class string, opt csnet.Options, res *csnet.Result,
 		c.Count("runs_with_round_change", 1)
 	}
 	if res.LockAttackUnfolded {
-		c.Count("lock_attack_unfolded", 1)
+		c.Count("scripted_attack_unfolded_"+class, 1)
 	}
 	if res.LockAttackAborted {
-		c.Count("lock_attack_aborted_by_timing", 1)
+		c.Count("scripted_attack_aborted_by_timing_"+class, 1)
 	}
 	if res.Capped {
 		c.Count("runs_capped_by_watchdog", 1)
@@ -183,7 +192,7 @@ func Report(c *ev.Ctx, prop, class string, opt csnet.Options, res *csnet.Result,
 	c.Distinct("vote_arrival_orders", res.VoteOrderSig)
 	c.Distinct("signatures", fmt.Sprintf("%s/r%d/c%d/e%d", class, res.MaxRound, len(res.Crashes), res.Equivocations))
 	for _, v := range res.Violations {
-		isC02 := len(v.Key) >= 12 && (v.Key[:12] == "equivocation" || v.Key[:12] == "send-before-")
+		isC02 := len(v.Key) >= 12 && (v.Key[:12] == "equivocation" || v.Key[:12] == "send-before-" || v.Key[:12] == "sent-message")
 		if isC02 != c02 {
 			c.Count("other_property_violation_"+v.Key, 1)
 			c.Notef("violation of the sibling property observed: %s", v.Key)
